@@ -485,6 +485,60 @@ fn c04_transcript_dependence() {
             if base[0].1 == got[0].1 { bad.push(format!("keccak: byte {byte} of the circuit digest does not reach the transcript")); }
         }
     }
+    // the FRI parameters enter the transcript injectively: configurations that differ in any scalar parameter (also by multiples of 2^8 / 2^16, where a
+    // packed encoding would alias them) lead to different first challenges
+    {
+        use crate::fri::{FriConfig, FriParams};
+        use crate::iop::challenger::Challenger;
+        let grid = [1usize, 2, 17, 256 + 1, 256 + 17, 65536 + 2, 284, 28];
+        let mut seen: Vec<((usize, usize, usize, u32), Vec<u64>, Vec<u64>)> = Vec::new();
+        for &rate_bits in &grid[..4] { for &cap_height in &grid[..4] { for &nq in &grid { for &pow in &[16u32, 17, 1, 0] {
+            let cfg = FriConfig { rate_bits, cap_height, proof_of_work_bits: pow, reduction_strategy: FriReductionStrategy::ConstantArityBits(4, 5), num_query_rounds: nq };
+            let params = FriParams { config: cfg.clone(), hiding: false, degree_bits: 10, reduction_arity_bits: vec![4] };
+            let mut c1 = Challenger::<F, PoseidonHash>::new(); cfg.observe(&mut c1);
+            let mut c2 = Challenger::<F, PoseidonHash>::new(); params.observe(&mut c2);
+            seen.push(((rate_bits, cap_height, nq, pow), c1.get_n_challenges(2).iter().map(|x| x.to_canonical_u64()).collect(), c2.get_n_challenges(2).iter().map(|x| x.to_canonical_u64()).collect()));
+        } } } }
+        cases += 1;
+        let mut by_cfg: std::collections::HashMap<Vec<u64>, (usize, usize, usize, u32)> = std::collections::HashMap::new();
+        let mut by_par: std::collections::HashMap<Vec<u64>, (usize, usize, usize, u32)> = std::collections::HashMap::new();
+        for (k, a, b) in &seen {
+            if let Some(o) = by_cfg.insert(a.clone(), *k) { bad.push(format!("FriConfig::observe: configurations (rate_bits, cap_height, queries, pow) = {o:?} and {k:?} lead to the same transcript")); break; }
+            if let Some(o) = by_par.insert(b.clone(), *k) { bad.push(format!("FriParams::observe: configurations (rate_bits, cap_height, queries, pow) = {o:?} and {k:?} lead to the same transcript")); break; }
+        }
+    }
+    // every final-polynomial coefficient and every commit-phase cap entry reaches the proof-of-work response and the query indices, whatever padded
+    // transcript length / step count the caller names (a recursive verifier's; also one smaller than the proof's own)
+    {
+        use crate::field::extension::FieldExtension;
+        use crate::field::polynomial::PolynomialCoeffs;
+        use crate::iop::challenger::Challenger;
+        let cfg = cfg_small().fri_config;
+        let run = |caps: &Vec<MerkleCap<F, PoseidonHash>>, poly: &Vec<FE>, padded: Option<usize>, steps: Option<usize>| {
+            let mut ch = Challenger::<F, PoseidonHash>::new();
+            ch.observe_element(F::from_canonical_u64(7 + seed()));
+            let c = ch.fri_challenges::<PC, D>(caps, &PolynomialCoeffs::new(poly.clone()), F::from_canonical_u64(99), 10, &cfg, padded, steps);
+            (c.fri_betas.iter().map(|b| format!("{b:?}")).collect::<Vec<_>>(), c.fri_pow_response.to_canonical_u64(), c.fri_query_indices.clone())
+        };
+        for n in [1usize, 4, 8] { for ncaps in [0usize, 2] {
+            let caps: Vec<MerkleCap<F, PoseidonHash>> = (0..ncaps).map(|i| MerkleCap((0..(1usize << cfg.cap_height)).map(|j| HashOut { elements: [F::from_canonical_u64((i * 100 + j) as u64 + 1), F::ZERO, F::ONE, F::TWO] }).collect())).collect();
+            let poly: Vec<FE> = (0..n).map(|i| <FE as FieldExtension<D>>::from_basefield_array([F::from_canonical_u64(3 * i as u64 + 1), F::from_canonical_u64(i as u64)])).collect();
+            for padded in [None, Some(0usize), Some(1), Some(n - 1), Some(n), Some(n + 3)] { for steps in [None, Some(0usize), Some(ncaps), Some(ncaps + 2)] {
+                let base = run(&caps, &poly, padded, steps);
+                for k in 0..n { for limb in 0..D {
+                    let mut q = poly.clone();
+                    let mut a = <FE as FieldExtension<D>>::to_basefield_array(&q[k]); a[limb] += F::ONE; q[k] = <FE as FieldExtension<D>>::from_basefield_array(a);
+                    let got = run(&caps, &q, padded, steps); cases += 1;
+                    if got.1 == base.1 || got.2 == base.2 { bad.push(format!("fri_challenges (padded length {padded:?}, step count {steps:?}): limb {limb} of coefficient {k} of a {n}-coefficient final polynomial does not reach the proof-of-work response / query indices")); }
+                } }
+                for i in 0..ncaps { for j in [0usize, (1usize << cfg.cap_height) - 1] { for e in 0..4 {
+                    let mut c2 = caps.clone(); c2[i].0[j].elements[e] += F::ONE;
+                    let got = run(&c2, &poly, padded, steps); cases += 1;
+                    if got.0[i] == base.0[i] || got.1 == base.1 || got.2 == base.2 { bad.push(format!("fri_challenges (padded length {padded:?}, step count {steps:?}): element {e} of entry {j} of commit-phase cap {i} does not reach the challenges drawn after it")); }
+                } } }
+            } }
+        } }
+    }
     finish("c04_transcript_dependence", cases, bad);
 }
 
@@ -595,6 +649,17 @@ fn c03_compressed_surplus() {
             let o = co(q);
             if o == "ACCEPTED" { bad.push(format!("{tag}: compressed proof with {what} -> ACCEPTED")); }
         }
+        // every sibling digest that the compressed form carries is read and bound: altering any of them is not accepted
+        let mut not_bound = 0usize; let mut total = 0usize;
+        for &k in &keys {
+            let n_or = comp.proof.opening_proof.query_round_proofs.initial_trees_proofs[&k].evals_proofs.len();
+            for o in 0..n_or { let ns = comp.proof.opening_proof.query_round_proofs.initial_trees_proofs[&k].evals_proofs[o].1.siblings.len();
+                for sidx in 0..ns { let mut q = comp.clone(); bump_hash(&mut q.proof.opening_proof.query_round_proofs.initial_trees_proofs.get_mut(&k).unwrap().evals_proofs[o].1.siblings[sidx], 1); total += 1; if co(q) == "ACCEPTED" { not_bound += 1; } } }
+        }
+        for (li, layer) in comp.proof.opening_proof.query_round_proofs.steps.iter().enumerate() { for (&ck, st) in layer.iter() { for sidx in 0..st.merkle_proof.siblings.len() {
+            let mut q = comp.clone(); bump_hash(&mut q.proof.opening_proof.query_round_proofs.steps[li].get_mut(&ck).unwrap().merkle_proof.siblings[sidx], 1); total += 1; if co(q) == "ACCEPTED" { not_bound += 1; } } } }
+        cases += 1;
+        if not_bound > 0 { bad.push(format!("{tag}: {not_bound} of the {total} sibling digests carried by the compressed proof can be altered without the proof being refused")); }
     }
     finish("c03_compressed_surplus", cases, bad);
 }
@@ -724,6 +789,11 @@ fn c16_compression() {
         (FriReductionStrategy::ConstantArityBits(4, 5), 4, 28, 1 << 9, 4),
         (FriReductionStrategy::Fixed(vec![1, 1]), 2, 16, 1 << 4, 2),
         (FriReductionStrategy::Fixed(vec![1, 3]), 0, 24, 1 << 5, 6),
+        // no reduction layer at all; a commit-phase tree exactly as tall as the cap
+        (FriReductionStrategy::ConstantArityBits(4, 5), 2, 10, 1 << 3, 3),
+        (FriReductionStrategy::Fixed(vec![]), 1, 12, 1 << 3, 3),
+        (FriReductionStrategy::Fixed(vec![3, 3]), 4, 20, 1 << 7, 3),
+        (FriReductionStrategy::Fixed(vec![2]), 4, 20, 1 << 3, 3),
     ];
     for (k, (strategy, cap_height, nq, rows, rate_bits)) in schedules.into_iter().enumerate() {
         let mut cfg = CircuitConfig::standard_recursion_config();
@@ -746,6 +816,9 @@ fn c16_compression() {
             Ok(Ok(())) => {}, Ok(Err(e)) => bad.push(format!("schedule {k} {strategy:?} cap {cap_height} q {nq}: verify_compressed rejects a proof that verify accepts: {e}")),
             Err(_) => bad.push(format!("schedule {k} {strategy:?} cap {cap_height} q {nq}: verify_compressed PANICKED on an honest proof")),
         }
+        // the compressed form is about exactly these public inputs: a surplus one is refused even if it is zero (which leaves the hash of the inputs unchanged)
+        { let mut q = comp.clone(); q.public_inputs.push(F::ZERO); cases += 1;
+          if let Ok(Ok(())) = catch_unwind(AssertUnwindSafe(|| data.verify_compressed(q))) { bad.push(format!("schedule {k}: compressed proof with a zero appended to the public inputs accepted by verify_compressed")); } }
         // byte round trip of the compressed form
         cases += 1;
         match crate::plonk::proof::CompressedProofWithPublicInputs::<F, PC, D>::from_bytes(comp.to_bytes(), &data.common) { Ok(c2) => if c2 != comp { bad.push(format!("schedule {k}: compressed bytes round trip changed the proof")) }, Err(e) => bad.push(format!("schedule {k}: compressed from_bytes failed: {e}")) }
@@ -862,6 +935,30 @@ fn c17_keccak_and_dummy_roundtrip() {
                 }
             }
             _ => bad.push("building a circuit with conditionally_verify_proof_or_dummy failed".into()),
+        }
+    }
+    {
+        // a zero-knowledge configuration: blinding flags differ per commitment and must survive the round trip
+        use crate::util::serialization::{DefaultGateSerializer, DefaultGeneratorSerializer};
+        let mut cfg = CircuitConfig::standard_recursion_zk_config();
+        cfg.fri_config.num_query_rounds = 8; cfg.security_bits = 24;
+        cases += 1;
+        match catch_unwind(AssertUnwindSafe(|| circuit::<PC>(cfg, 12, 5 + seed(), false))) {
+            Err(_) => bad.push("zero-knowledge configuration: building / proving PANICKED".into()),
+            Ok((data, proof)) => {
+                let gs = DefaultGateSerializer;
+                let ws = DefaultGeneratorSerializer::<PC, D> { _phantom: Default::default() };
+                match data.to_bytes(&gs, &ws).ok().and_then(|bts| catch_unwind(AssertUnwindSafe(|| CircuitData::<F, PC, D>::from_bytes(&bts, &gs, &ws))).ok()) {
+                    Some(Ok(restored)) => {
+                        cases += 2;
+                        if restored != data { bad.push("zero-knowledge configuration: restored circuit data differ".into()); }
+                        if restored.verify(proof.clone()).is_err() { bad.push("zero-knowledge configuration: restored circuit rejects the original proof".into()); }
+                        let mut pw = PartialWitness::new(); pw.set_target(crate::iop::target::Target::VirtualTarget { index: 0 }, F::from_canonical_u64(5 + seed())).unwrap();
+                        match catch_unwind(AssertUnwindSafe(|| restored.prove(pw))) { Ok(Ok(p2)) => { if data.verify(p2).is_err() { bad.push("zero-knowledge configuration: original circuit rejects the restored circuit's proof".into()); } } _ => bad.push("zero-knowledge configuration: restored circuit fails to prove / PANICS".into()) }
+                    }
+                    _ => bad.push("zero-knowledge configuration: circuit data byte round trip failed".into()),
+                }
+            }
         }
     }
     finish("c17_keccak_and_dummy_roundtrip", cases, bad);
@@ -1040,6 +1137,7 @@ fn c07_gates() {
         gate_battery(&format!("{ctag} ConstantGate(2)"), || ConstantGate::new(2), cfg, &mut bad, &mut cases);
         gate_battery(&format!("{ctag} ExponentiationGate(5)"), || ExponentiationGate::<F, D>::new(5), cfg, &mut bad, &mut cases);
         gate_battery(&format!("{ctag} ExponentiationGate(1)"), || ExponentiationGate::<F, D>::new(1), cfg, &mut bad, &mut cases);
+        gate_battery(&format!("{ctag} ExponentiationGate(from config)"), || ExponentiationGate::<F, D>::new_from_config(cfg), cfg, &mut bad, &mut cases);
         gate_battery(&format!("{ctag} PoseidonGate"), || PoseidonGate::<F, D>::new(), cfg, &mut bad, &mut cases);
         gate_battery(&format!("{ctag} PoseidonMdsGate"), || PoseidonMdsGate::<F, D>::new(), cfg, &mut bad, &mut cases);
         gate_battery(&format!("{ctag} PublicInputGate"), || PublicInputGate, cfg, &mut bad, &mut cases);
@@ -1098,6 +1196,16 @@ fn c13_poseidon_and_sponge() {
             }
         }
     }
+    // compact() with nothing pending (a whole number of blocks absorbed, or a challenge just drawn) must not disturb the sponge: what follows is unchanged
+    for plen in [0usize, 8, 16, 3, 11] { for pre in [0usize, 1] {
+        if plen % 8 != 0 && pre == 0 { continue; }   // inputs pending: compact() legitimately absorbs them first
+        let mk = || { let mut c = Challenger::<F, PoseidonHash>::new(); c.observe_elements(&(0..plen).map(|i| F::from_canonical_u64(40 + i as u64)).collect::<Vec<_>>()); if pre == 1 { let _ = c.get_challenge(); } c };
+        let mut plain = mk(); let mut compacted = mk();
+        let _state = compacted.compact();
+        plain.observe_element(F::ONE); compacted.observe_element(F::ONE);
+        cases += 1;
+        if plain.get_n_challenges(4) != compacted.get_n_challenges(4) { bad.push(format!("challenger: compact() after {plen} observed elements{} changes the transcript that follows", if pre == 1 { " and one challenge" } else { "" })); }
+    } }
     let mut c0 = Challenger::<F, PoseidonHash>::new(); c0.observe_elements(&msg); let r0 = c0.get_n_challenges(9);
     for split in 0..msg.len() { let mut c = Challenger::<F, PoseidonHash>::new(); c.observe_elements(&msg[..split]); c.observe_elements(&msg[split..]); cases += 1; if c.get_n_challenges(9) != r0 { bad.push(format!("challenger: split at {split} changes the challenges")); } }
     { let mut c = Challenger::<F, PoseidonHash>::new(); for &m in &msg { c.observe_element(m); } cases += 1; if c.get_n_challenges(9) != r0 { bad.push("challenger: element-wise absorption changes the challenges".into()); } }
@@ -1324,6 +1432,56 @@ fn c20_proof_or_dummy() {
     }
     }
     finish("c20_proof_or_dummy", cases, bad);
+}
+
+// C20: both branches' verifier data given as circuit CONSTANTS; and two inner circuits with the same constants/sigmas cap but different digests
+#[test]
+fn c20_constant_verifier_data() {
+    let mut bad = Vec::new();
+    let mut cases = 0usize;
+    // inner circuits A, B: same gates, B has a domain separator -> same cap, different circuit digest; C: another circuit altogether
+    let mk = |sep: Option<u64>, extra: usize| -> (CircuitData<F, PC, D>, ProofWithPublicInputs<F, PC, D>) {
+        let mut b = CircuitBuilder::<F, D>::new(CircuitConfig::standard_recursion_config());
+        if let Some(sv) = sep { b.set_domain_separator(vec![F::from_canonical_u64(sv)]); }
+        let t = b.add_virtual_target(); b.register_public_input(t);
+        let mut cur = t; for _ in 0..3 + extra { cur = b.mul(cur, t); }
+        b.register_public_input(cur);
+        for _ in 0..40 { b.add_gate(crate::gates::noop::NoopGate, vec![]); }
+        let data = b.build::<PC>();
+        let mut pw = PartialWitness::new(); pw.set_target(t, F::from_canonical_u64(3)).unwrap();
+        let proof = data.prove(pw).expect("inner proof");
+        (data, proof)
+    };
+    let (da, pa) = mk(None, 0);
+    let (db, pb) = mk(Some(12345), 0);
+    let (dc, pc) = mk(None, 1);
+    if da.common != db.common || da.common != dc.common { finish("c20_constant_verifier_data", 1, vec!["harness: the inner circuits do not share their common data".into()]); return; }
+    for (pair, d0, p0, d1, p1) in [("twins differing in the domain separator only", &da, &pa, &db, &pb), ("two different circuits", &da, &pa, &dc, &pc)] {
+        for constant_vd in [true, false] {
+            let mut builder = CircuitBuilder::<F, D>::new(CircuitConfig::standard_recursion_config());
+            let pt0 = builder.add_virtual_proof_with_pis(&da.common);
+            let pt1 = builder.add_virtual_proof_with_pis(&da.common);
+            let (vd0, vd1) = if constant_vd { (builder.constant_verifier_data(&d0.verifier_only), builder.constant_verifier_data(&d1.verifier_only)) }
+                             else { (builder.add_virtual_verifier_data(da.common.config.fri_config.cap_height), builder.add_virtual_verifier_data(da.common.config.fri_config.cap_height)) };
+            let b = builder.add_virtual_bool_target_safe();
+            builder.conditionally_verify_proof::<PC>(b, &pt0, &vd0, &pt1, &vd1, &da.common);
+            let outer = builder.build::<PC>();
+            // (condition, proof in slot 0, proof in slot 1): the selected proof must be a proof of the selected circuit
+            for (cond, q0, q1, expect) in [(true, p0, p1, true), (false, p0, p1, true), (true, p1, p1, false), (false, p0, p0, false), (true, p0, p0, true), (false, p1, p1, true)] {
+                cases += 1;
+                let r = catch_unwind(AssertUnwindSafe(|| -> anyhow::Result<()> {
+                    let mut pw = PartialWitness::new();
+                    pw.set_bool_target(b, cond)?; pw.set_proof_with_pis_target(&pt0, q0)?; pw.set_proof_with_pis_target(&pt1, q1)?;
+                    if !constant_vd { pw.set_verifier_data_target(&vd0, &d0.verifier_only)?; pw.set_verifier_data_target(&vd1, &d1.verifier_only)?; }
+                    let p = outer.prove(pw)?; outer.verify(p)
+                }));
+                let accepted = matches!(r, Ok(Ok(())));
+                // for twins the digest is the only thing that tells the circuits apart; a proof of A is not a proof of B
+                if accepted != expect { bad.push(format!("{pair}, verifier data as {}: condition {cond}: outer circuit {} (expected {})", if constant_vd { "constants" } else { "witness" }, if accepted { "ACCEPTED" } else { "not provable / not accepted" }, if expect { "acceptance" } else { "refusal" })); }
+            }
+        }
+    }
+    finish("c20_constant_verifier_data", cases, bad);
 }
 
 #[test]
@@ -1929,6 +2087,30 @@ fn c08_lookups() {
                 }
             }
             start += nl;
+        }
+    }
+    // tables declared by (inputs, outputs) columns in arbitrary order and by a function; configurations with other wire counts (42 lookup slots = 6 x 7)
+    for (ctag, routed, wires) in [("standard", 80usize, 135usize), ("84 routed wires", 84, 140), ("70 routed wires", 70, 135)] {
+        let mut cfg = CircuitConfig::standard_recursion_config(); cfg.num_routed_wires = routed; cfg.num_wires = wires;
+        let inps: Vec<u16> = vec![40, 3, 17, 0, 999, 5, 12];
+        let outs: Vec<u16> = vec![1, 2, 3, 4, 5, 6, 7];
+        cases += 1;
+        let r = catch_unwind(AssertUnwindSafe(|| -> anyhow::Result<Vec<F>> {
+            let mut b = CircuitBuilder::<F, D>::new(cfg.clone());
+            let t1 = b.add_lookup_table_from_table(&inps, &outs);
+            let t2 = b.add_lookup_table_from_fn(|x| x.wrapping_mul(3) ^ 5, &[9, 2, 30, 4]);
+            let mut xs = Vec::new();
+            for k in 0..50usize { let x = b.add_virtual_target(); let o = b.add_lookup_from_index(x, if k % 3 == 2 { t2 } else { t1 }); b.register_public_input(o); xs.push(x); }
+            let data = b.build::<PC>();
+            let mut pw = PartialWitness::new();
+            for (k, &x) in xs.iter().enumerate() { let v = if k % 3 == 2 { [9u16, 2, 30, 4][k % 4] } else { inps[k % inps.len()] }; pw.set_target(x, F::from_canonical_u64(v as u64))?; }
+            let p = data.prove(pw)?; let pis = p.public_inputs.clone(); data.verify(p)?; Ok(pis)
+        }));
+        match r {
+            Ok(Ok(pis)) => { for k in 0..50usize { let want = if k % 3 == 2 { let v = [9u16, 2, 30, 4][k % 4]; (v.wrapping_mul(3) ^ 5) as u64 } else { outs[k % inps.len()] as u64 };
+                if pis[k].to_canonical_u64() != want { bad.push(format!("{ctag}: lookup {k} into a table declared by columns / by a function outputs {} instead of {want}", pis[k].to_canonical_u64())); break; } } }
+            Ok(Err(e)) => bad.push(format!("{ctag}: honest circuit over tables declared by columns / by a function not provable / accepted: {e}")),
+            Err(_) => bad.push(format!("{ctag}: honest circuit over tables declared by columns / by a function PANICKED")),
         }
     }
     // the same target looked up in two tables gets each table's own value
@@ -2641,6 +2823,25 @@ fn c02_conflicting_assignments() {
                     else if acc { bad.push(format!("connect order {order}: conflicting assignment x = {xv}, y = {yv} was not refused: an accepted proof with public inputs {:?} came back", p.public_inputs.iter().map(|v| v.to_canonical_u64()).collect::<Vec<_>>())); }
                 }
                 _ => { if consistent { bad.push(format!("connect order {order}: consistent assignment ({xv}, {yv}) not provable")); } }
+            }
+        }
+    }
+    // two CALLER-assigned targets in one copy class (no generator involved), directly and through a chain of connections
+    for chain in 0..3usize {
+        let mut b = CircuitBuilder::<F, D>::new(CircuitConfig::standard_recursion_config());
+        let a = b.add_virtual_target(); let c = b.add_virtual_target();
+        b.register_public_input(a); b.register_public_input(c);
+        match chain { 0 => b.connect(a, c), 1 => { let m = b.add_virtual_target(); b.connect(a, m); b.connect(m, c); } _ => { let m = b.add_virtual_target(); let k = b.add_virtual_target(); b.connect(c, m); b.connect(k, a); b.connect(m, k); } }
+        let seven = b.constant(F::from_canonical_u64(7)); let pr = b.mul(a, seven); b.register_public_input(pr);
+        let data = b.build::<PC>();
+        for (av, cv, consistent) in [(6u64, 6u64, true), (6, 9, false), (0, 1, false), (9, 6, false)] {
+            let mut pw = PartialWitness::new();
+            pw.set_target(a, F::from_canonical_u64(av)).unwrap(); pw.set_target(c, F::from_canonical_u64(cv)).unwrap();
+            cases += 1;
+            match catch_unwind(AssertUnwindSafe(|| data.prove(pw))) {
+                Ok(Ok(p)) => { let acc = data.verify(p.clone()).is_ok();
+                    if consistent != acc { bad.push(format!("two caller-assigned connected targets (chain {chain}) with values {av}, {cv}: {}", if acc { "conflict not refused, an accepted proof came back" } else { "consistent assignment not accepted" })); } }
+                _ => { if consistent { bad.push(format!("two caller-assigned connected targets (chain {chain}) with equal values {av}: not provable")); } }
             }
         }
     }
